@@ -57,6 +57,8 @@ fn run(pieces: &[&[u8]]) -> Vec<Ev> {
 fn main() {
     // Codec::default() starts the date service, which needs a local task set
     let ok = actix_rt::System::new().block_on(async { let a = checks(); let b = server::check().await; let c = h2srv::check().await; a & b & c });
+    // each deadline scenario gets a runtime of its own: virtual time starts at zero together with the service's clock
+    let ok = ok & timers::check();
     std::process::exit(if ok { 0 } else { 1 });
 }
 
@@ -574,5 +576,108 @@ mod h2srv {
         }
         println!("BOUNDED-OK h2_server cases={}", n);
         true
+    }
+}
+
+// ---------------------------------------------------------------- HTTP/1 deadlines in virtual time (C06)
+mod timers {
+    use std::{io, pin::Pin, task::{Context, Poll}, time::Duration};
+    use actix_http::{body::BoxBody, HttpService, Request, Response};
+    use actix_service::{fn_service, Service, ServiceFactory};
+    use tokio::io::{AsyncRead, AsyncReadExt, AsyncWrite, AsyncWriteExt, DuplexStream, ReadBuf};
+
+    const KEEP_ALIVE: u64 = 5; const SLOW_REQUEST: u64 = 3; const DISCONNECT: u64 = 2;
+
+    async fn handle(_: Request) -> Result<Response<BoxBody>, std::convert::Infallible> { Ok(Response::ok().set_body("ok").map_into_boxed_body()) }
+
+    /// a peer that never completes the TCP shutdown
+    struct StuckShutdown(DuplexStream);
+    impl AsyncRead for StuckShutdown { fn poll_read(mut self: Pin<&mut Self>, cx: &mut Context<'_>, b: &mut ReadBuf<'_>) -> Poll<io::Result<()>> { Pin::new(&mut self.0).poll_read(cx, b) } }
+    impl AsyncWrite for StuckShutdown {
+        fn poll_write(mut self: Pin<&mut Self>, cx: &mut Context<'_>, b: &[u8]) -> Poll<io::Result<usize>> { Pin::new(&mut self.0).poll_write(cx, b) }
+        fn poll_flush(mut self: Pin<&mut Self>, cx: &mut Context<'_>) -> Poll<io::Result<()>> { Pin::new(&mut self.0).poll_flush(cx) }
+        fn poll_shutdown(self: Pin<&mut Self>, _: &mut Context<'_>) -> Poll<io::Result<()>> { Poll::Pending }
+    }
+
+    fn secs(d: Duration) -> f64 { d.as_secs_f64() }
+
+    async fn keep_alive_case() -> bool {
+        tokio::time::pause();
+        let build = || HttpService::build().keep_alive(Duration::from_secs(KEEP_ALIVE)).client_request_timeout(Duration::from_secs(SLOW_REQUEST)).client_disconnect_timeout(Duration::from_secs(DISCONNECT)).h1(fn_service(handle));
+        let _ = &build;
+        // 1. an idle kept-alive connection is closed once the keep-alive time has elapsed, and a request arriving in time is still served
+        {
+            let (mut client, server_io) = tokio::io::duplex(1 << 16);
+            let svc = build().new_service(()).await.unwrap();
+            actix_rt::spawn(async move { let _ = svc.call((server_io, None)).await; });
+            client.write_all(b"GET / HTTP/1.1\r\n\r\n").await.unwrap();
+            let mut buf = vec![0u8; 4096];
+            let k = client.read(&mut buf).await.unwrap();
+            if !buf[..k].starts_with(b"HTTP/1.1 200") { println!("BOUNDED-FAIL h1_timers input=(first request) expected=200 got={:?}", String::from_utf8_lossy(&buf[..k])); return false; }
+            tokio::time::sleep(Duration::from_secs(KEEP_ALIVE - 1)).await;
+            client.write_all(b"GET / HTTP/1.1\r\n\r\n").await.unwrap();
+            let k = client.read(&mut buf).await.unwrap();
+            if !buf[..k].starts_with(b"HTTP/1.1 200") { println!("BOUNDED-FAIL h1_timers input=(second request {} s after the first, keep-alive {} s) expected=200 got={:?}", KEEP_ALIVE - 1, KEEP_ALIVE, String::from_utf8_lossy(&buf[..k])); return false; }
+            let t0 = tokio::time::Instant::now();
+            let mut rest = Vec::new();
+            let r = tokio::time::timeout(Duration::from_secs(60), client.read_to_end(&mut rest)).await;
+            let idle = secs(t0.elapsed());
+            if r.is_err() || idle < KEEP_ALIVE as f64 - 0.6 || idle > (KEEP_ALIVE + DISCONNECT) as f64 + 1.5 {
+                println!("BOUNDED-FAIL h1_timers input=(idle kept-alive connection, keep-alive {} s) expected=closed by the server after about {} s got={}", KEEP_ALIVE, KEEP_ALIVE, if r.is_err() { "still open after 60 s".to_owned() } else { format!("closed after {:.1} s", idle) });
+                return false;
+            }
+        }
+        true
+    }
+    async fn slow_request_case() -> bool {
+        tokio::time::pause();
+        let build = || HttpService::build().keep_alive(Duration::from_secs(KEEP_ALIVE)).client_request_timeout(Duration::from_secs(SLOW_REQUEST)).client_disconnect_timeout(Duration::from_secs(DISCONNECT)).h1(fn_service(handle));
+        let _ = &build;
+        // 2. a request head that does not arrive in time is answered with 408 and the connection closed
+        {
+            let (mut client, server_io) = tokio::io::duplex(1 << 16);
+            let svc = build().new_service(()).await.unwrap();
+            actix_rt::spawn(async move { let _ = svc.call((server_io, None)).await; });
+            client.write_all(b"GET / HT").await.unwrap();
+            let t0 = tokio::time::Instant::now();
+            let mut out = Vec::new();
+            let r = tokio::time::timeout(Duration::from_secs(60), client.read_to_end(&mut out)).await;
+            let took = secs(t0.elapsed());
+            if r.is_err() || !out.starts_with(b"HTTP/1.1 408") || took < SLOW_REQUEST as f64 - 0.6 || took > (SLOW_REQUEST + DISCONNECT) as f64 + 1.5 {
+                println!("BOUNDED-FAIL h1_timers input=(request head never completed, slow-request timeout {} s) expected=408 and close after about {} s got=({:?} after {:.1} s{})", SLOW_REQUEST, SLOW_REQUEST, String::from_utf8_lossy(&out[..out.len().min(20)]), took, if r.is_err() { ", still open" } else { "" });
+                return false;
+            }
+        }
+        true
+    }
+    async fn stuck_shutdown_case() -> bool {
+        tokio::time::pause();
+        // 3. shutdown never outlasts the disconnect timeout: the peer never completes the TCP shutdown
+        {
+            let (mut client, server_io) = tokio::io::duplex(1 << 16);
+            let svc = HttpService::build().keep_alive(Duration::from_secs(KEEP_ALIVE)).client_request_timeout(Duration::from_secs(SLOW_REQUEST)).client_disconnect_timeout(Duration::from_secs(DISCONNECT)).h1(fn_service(handle)).new_service(()).await.unwrap();
+            let done = actix_rt::spawn(async move { svc.call((StuckShutdown(server_io), None)).await.is_err() });
+            client.write_all(b"GET / HTTP/1.1\r\n\r\n").await.unwrap();
+            let mut buf = vec![0u8; 4096];
+            let _ = client.read(&mut buf).await.unwrap();
+            let t0 = tokio::time::Instant::now();
+            let r = tokio::time::timeout(Duration::from_secs(120), done).await;
+            let took = secs(t0.elapsed());
+            let limit = (KEEP_ALIVE + DISCONNECT) as f64 + 1.5;
+            if r.is_err() || took > limit {
+                println!("BOUNDED-FAIL h1_timers input=(idle connection whose peer never completes the shutdown; keep-alive {} s, disconnect timeout {} s) expected=the connection task ends within {:.1} s got={}", KEEP_ALIVE, DISCONNECT, limit, if r.is_err() { "still running after 120 s".to_owned() } else { format!("ended after {:.1} s", took) });
+                return false;
+            }
+            drop(client);
+        }
+        true
+    }
+    pub fn check() -> bool {
+        // virtual time (tokio's paused clock): it only moves when every task is idle, so the measured durations are exact and load-independent
+        let a = actix_rt::System::new().block_on(keep_alive_case());
+        let b = a && actix_rt::System::new().block_on(slow_request_case());
+        let c = b && actix_rt::System::new().block_on(stuck_shutdown_case());
+        if c { println!("BOUNDED-OK h1_timers cases=3"); }
+        c
     }
 }
